@@ -473,7 +473,7 @@ pub fn c01(_tier: Tier) -> Property {
                 let obs = sim::run(s);
                 judge_c01(s, &obs)
             }),
-        }), systematic_part(judge_c01)],
+        }), systematic_part(judge_c01), crate::fuzzops::corpus_part("fuzz_corpus", "fz_sim", "C01", crate::fuzzops::sim_target)],
         assumptions: vec![
             "schedules are those of a current-thread tokio runtime with a paused clock and seeded select! (tokio channels and timers trusted)",
             "the simulated MPD answers each token from the case's reply table",
@@ -495,7 +495,7 @@ pub fn c04(_tier: Tier) -> Property {
                 let obs = sim::run(s);
                 judge_c04(s, &obs)
             }),
-        }), systematic_part(judge_c04), slow_consumer_part()],
+        }), systematic_part(judge_c04), slow_consumer_part(), crate::fuzzops::corpus_part("fuzz_corpus", "fz_sim", "C04", crate::fuzzops::sim_target)],
         assumptions: vec!["as C01", "pending changes are reported by the simulated server at the next idle, duplicates merged (as MPD's idle flags)"],
         selftest: None,
     }
@@ -514,7 +514,7 @@ pub fn c05(_tier: Tier) -> Property {
                 let obs = sim::run(s);
                 judge_c05(s, &obs)
             }),
-        }), systematic_part(judge_c05)],
+        }), systematic_part(judge_c05), crate::fuzzops::corpus_part("fuzz_corpus", "fz_sim", "C05", crate::fuzzops::sim_target)],
         assumptions: vec!["the server model implements MPD's idle rules (client/Process.cxx, client/Idle.cxx): noidle outside idle is ignored without reply, anything but noidle during idle is a protocol violation"],
         selftest: None,
     }
